@@ -196,6 +196,13 @@ def design_p2p(ctx, pid):
                               files={"Live_P2P_run.cfg": write_cfg(ctx, "Live_P2P_run.cfg", cfg)}, name="live-p2p", heap="12g")
         out["liveness"] = dict(constants=lv, distinct=r.distinct)
         ctx.log("design P2P liveness: %d distinct states, every produced message eventually confirmed" % r.distinct)
+        lc = dict(W=2, N=2, Chunks="Ch21", F=1, TP=0, TC=0, TG=0, Orders='{"pc"}') if quick else dict(W=2, N=3, Chunks="Ch212", F=1, TP=0, TC=0, TG=0, Orders='{"pc", "cp"}')
+        cfg = ("SPECIFICATION LiveSpec\nCONSTANTS\n" + (P2P_CONST % P(lc)).replace("QuietTicks = FALSE", "QuietTicks = TRUE") +
+               "VIEW LiveView\nINVARIANTS InFlightIsNext Watermarks NoFailure\nPROPERTIES EventuallyAllConfirmed\n")
+        r = ctx.tlc_must_hold(SPEC, "Live_P2PCh_run.cfg", module="MC_P2PCh", deadlock_check=False, timeout=2400, workers=4,
+                              files={"Live_P2PCh_run.cfg": write_cfg(ctx, "Live_P2PCh_run.cfg", cfg)}, name="live-p2pch", heap="12g")
+        out["liveness_chunking"] = dict(constants=lc, distinct=r.distinct)
+        ctx.log("design P2P liveness with chunking: %d distinct states" % r.distinct)
     return out
 
 
